@@ -25,7 +25,7 @@ SPECS = {
                     "(vm_compute); C<>S is a failing input of the property, C<>M a broken correspondence",
     ),
     "C02": dict(
-        level="proof", props_deps=["Proofs/Unify.v", "Proofs/UnifySound.v"], model_deps=["Model/TermCheck.v"],
+        level="proof", props_deps=["Proofs/Unify.v", "Proofs/UnifySound.v", "Proofs/HeadExec.v"], model_deps=["Model/TermCheck.v"],
         trusted=COMMON_TRUSTED + ["hand-written Model/Unify.v (Resolve/unify/contains over abstract terms and a finite-map env), tied to engine/env.go by the correspondence run"],
         assumptions=["pairs subject to occurs check are only used with unify_with_occurs_check/2 (decided by the harness's own unifier)",
                      "the red-black tree of engine/env.go is abstracted to a finite map"],
@@ -150,7 +150,7 @@ SPECS = {
         explanation="database histories run on the implementation, M and S; the final listing and all answers compared",
     ),
     "C10": dict(
-        level="proof", props_deps=["Proofs/Compile.v"], model_deps=ENGINE_MODEL_DEPS, trusted=ENGINE_TRUSTED,
+        level="proof", props_deps=["Proofs/Compile.v", "Proofs/Unify.v", "Proofs/UnifySound.v", "Proofs/HeadExec.v"], model_deps=ENGINE_MODEL_DEPS, trusted=ENGINE_TRUSTED,
         assumptions=["the recorded storage convention F3a is recognised by running S with that convention (Model/Sld.v ss_split)"],
         explanation="clauses loaded as text and asserted, observed through clause/2, retract/1 and calls, on the implementation, M and S",
     ),
